@@ -364,15 +364,19 @@ def main():
             lines += list(gmod.gen(tier, rng))
     log(f'{len(lines)} operation lines')
 
-    impl = {}
-    for name, _, d in PROFILES:
-        if const_fail and name == const_fail['profile']:
-            continue
-        impl[name] = run_parallel(impl_cmd(d), lines, 8)
-    if const_fail:
-        # the failed profile cannot run; profile-specific model outputs are compared for the release build only
-        impl[const_fail['profile']] = None
-    model = run_parallel(model_cmd(), lines, 16) if model_bin_ok else ['model-unavailable'] * len(lines)
+    def execute(ls):
+        im = {}
+        for name, _, d in PROFILES:
+            if const_fail and name == const_fail['profile']:
+                continue
+            im[name] = run_parallel(impl_cmd(d), ls, 8)
+        if const_fail:
+            # the failed profile cannot run; profile-specific model outputs are compared for the release build only
+            im[const_fail['profile']] = None
+        mo = run_parallel(model_cmd(), ls, 16) if model_bin_ok else ['model-unavailable'] * len(ls)
+        return im, mo
+
+    impl, model = execute(lines)
 
     # machinery errors: an op the harness or the driver does not know / cannot parse is never a pass
     MACH = ('unknown-op', 'bad-args', 'unsupported-width', 'model-unavailable', 'empty', 'crash-model')
@@ -383,48 +387,72 @@ def main():
         sys.exit(3)
 
     findings = load_findings()
-    known_hits = {}
-    viol = []       # public-op disagreements (impl != model)
-    hookbreak = []  # hook-level disagreements
-    profdiff = 0
     canon = getattr(gmod, 'canon', None)
-    for i, line in enumerate(lines):
-        m = model[i]
-        l1, l0 = m, None
-        if ' ;; ' in m:
-            l1, l0 = m.split(' ;; ', 1)
-        l1_all = l1
-        for name, _, _ in PROFILES:
-            if impl[name] is None:
-                continue
-            o = impl[name][i]
-            # a profile-specific model output: `<release output> ## <dbgchk output>` (debug assertions /
-            # overflow checks make the two builds differ only where the model says so)
-            if ' ## ' in l1_all:
-                l1 = l1_all.split(' ## ')[0 if name == 'release' else 1]
-            if canon:
-                oc, c1, c0 = canon(line, o), canon(line, l1), (canon(line, l0) if l0 is not None else None)
-            else:
-                oc, c1, c0 = o, l1, l0
-            want = c0 if c0 is not None else c1     # what the property demands on this line
-            # a spec may allow alternatives: `alt1 || alt2`
-            if oc not in want.split(' || '):
-                rec = dict(line=line, impl=o, model=l1, profile=name)
-                if l0 is not None:
-                    rec['spec'] = l0
-                    rec['model_mirrors_impl'] = (oc == c1)
-                f = classify(findings, pid, line, o, l0 if l0 is not None else l1)
-                if f:
-                    known_hits.setdefault(f['id'], []).append(rec)
-                elif '.hook.' in line.split()[0]:
-                    hookbreak.append(rec)
+
+    def compare(lines, impl, model):
+        known_hits = {}
+        viol = []       # public-op disagreements (impl != model)
+        hookbreak = []  # hook-level disagreements
+        profdiff = 0
+        for i, line in enumerate(lines):
+            m = model[i]
+            l1, l0 = m, None
+            if ' ;; ' in m:
+                l1, l0 = m.split(' ;; ', 1)
+            l1_all = l1
+            for name, _, _ in PROFILES:
+                if impl[name] is None:
+                    continue
+                o = impl[name][i]
+                # a profile-specific model output: `<release output> ## <dbgchk output>` (debug assertions /
+                # overflow checks make the two builds differ only where the model says so)
+                if ' ## ' in l1_all:
+                    l1 = l1_all.split(' ## ')[0 if name == 'release' else 1]
+                if canon:
+                    oc, c1, c0 = canon(line, o), canon(line, l1), (canon(line, l0) if l0 is not None else None)
                 else:
-                    viol.append(rec)
-            elif c0 is not None and oc != c1 and ' || ' not in c0:
-                # behaviour is right here but the limb-level model no longer mirrors the code
-                hookbreak.append(dict(line=line, impl=o, model=l1, spec=l0, profile=name, kind='L1 model differs from implementation (implementation agrees with spec L0)'))
-        if impl['dbgchk'] and impl['release'][i] != impl['dbgchk'][i]:
-            profdiff += 1
+                    oc, c1, c0 = o, l1, l0
+                want = c0 if c0 is not None else c1     # what the property demands on this line
+                # a spec may allow alternatives: `alt1 || alt2`
+                if oc not in want.split(' || '):
+                    rec = dict(line=line, impl=o, model=l1, profile=name)
+                    if l0 is not None:
+                        rec['spec'] = l0
+                        rec['model_mirrors_impl'] = (oc == c1)
+                    f = classify(findings, pid, line, o, l0 if l0 is not None else l1)
+                    if f:
+                        known_hits.setdefault(f['id'], []).append(rec)
+                    elif '.hook.' in line.split()[0]:
+                        hookbreak.append(rec)
+                    else:
+                        viol.append(rec)
+                elif c0 is not None and oc != c1 and ' || ' not in c0:
+                    # behaviour is right here but the limb-level model no longer mirrors the code
+                    hookbreak.append(dict(line=line, impl=o, model=l1, spec=l0, profile=name, kind='L1 model differs from implementation (implementation agrees with spec L0)'))
+            if impl['dbgchk'] and impl['release'][i] != impl['dbgchk'][i]:
+                profdiff += 1
+        return viol, hookbreak, known_hits, profdiff
+
+    viol, hookbreak, known_hits, profdiff = compare(lines, impl, model)
+
+    # ---- a correspondence on a crate-internal function (or a proof obligation) broke but no public operation disagrees with
+    # the property yet: search the PUBLIC operations with fresh generator streams (10x the budget) for a concrete failing
+    # input before falling back to `no-failing-input-found`
+    searched_extra = 0
+    if not args.replay and not viol and (hookbreak or po['failed'] or not po['build_ok']) and os.environ.get('VERIF_NO_BOOST') is None:
+        for k in range(1, 10):
+            extra = [l for l in gmod.gen(tier, random.Random(seed * 1000003 + k)) if '.hook.' not in l.split()[0]]
+            if not extra:
+                break
+            im2, mo2 = execute(extra)
+            v2, _, kh2, _ = compare(extra, im2, mo2)
+            searched_extra += len(extra)
+            if v2:
+                log(f'boosted search: {len(v2)} public-operation line(s) contradict the property (stream {k})')
+                viol = v2
+                break
+        else:
+            log(f'boosted search: no public operation contradicts the property on {searched_extra} further lines')
 
     nontriv = getattr(gmod, 'nontrivial', nontrivial_default)
     distinct = len({l for l in lines if nontriv(l)})
@@ -461,7 +489,7 @@ def main():
             what.append('correspondence broken on internal function(s): ' + ', '.join(sorted({h['line'].split()[0] for h in hookbreak})))
         json.dump(dict(property=pid, violation=True, kind='no-failing-input-found', what=what,
                        hook_disagreements=hookbreak[:25], lean_log=po['log'][-3000:], seed=seed, tier=tier,
-                       searched_lines=len(lines)), open(rpath, 'w'), indent=1)
+                       searched_lines=len(lines) + searched_extra), open(rpath, 'w'), indent=1)
         msgs.append(f'VIOLATION property={pid} replay={rpath} no-failing-input-found')
         rc = 1
     if const_fail and rc == 0 and (set(const_fail['files']) & anchor_files(pid)):
